@@ -34,7 +34,8 @@ MEANS = ['linearMean', 'arithmeticMean', 'geometricMean', 'harmonicMean', 'upwin
 
 
 def jobs(tier):
-    return [(c, tier) for c in MESH_CLASSES]
+    # second pass per class: cell values and face positions of integer dtype (legal inputs) - no face value may be truncated
+    return [(c, tier) for c in MESH_CLASSES] + [(c, tier, 'int') for c in MESH_CLASSES]
 
 
 def size(ax, c):
@@ -42,13 +43,15 @@ def size(ax, c):
 
 
 def job(args):
-    cls, tier = args
+    cls, tier = args[:2]
+    dtype = args[2] if len(args) > 2 else 'real'
     sm = SourceModel()
-    w = World(sm, cls)
+    w = World(sm, cls, int_data=(dtype == 'int'))
     obs, samples, units = [], [], set()
+    dtxt = ' [integer-dtype cell values and face positions]' if dtype == 'int' else ''
 
     def ob(rule, construct, ok, detail='', loc=''):
-        obs.append(dict(rule=rule, construct=construct, ok=bool(ok), detail=str(detail)[:1200], loc=loc, nontrivial=True))
+        obs.append(dict(rule=rule, construct=construct, ok=bool(ok), detail=(str(detail) + dtxt)[:1200], loc=loc, nontrivial=True))
     phi = w.cell_variable('phi')
     u = w.face_variable('u')
     d = w.dim
